@@ -70,7 +70,9 @@ Inductive dgram :=
        refused after MAC1 (unknown static, old timestamp, flood), 3 acceptable response to peer j's pending
        initiation, 4 response that is refused, 5 cookie reply, 6 MAC1-valid message answered by a cookie reply (under load),
        7 message with valid MAC1 and valid MAC2 while under load: handed to the per-address rate limiter, which either
-         refuses it (`goto skip`) or admits it (then refused like kind 2: the harness sends it with an unknown static key) *)
+         refuses it (`goto skip`) or admits it (then refused like kind 2: the harness sends it with an unknown static key),
+       8 right-sized handshake-type message that finds the handshake queue full: dropped in the receive loop (`default:` of
+         the non-blocking send), the receive slot keeps its buffer, nothing is taken or given back *)
 
 Inductive ev :=
 | EAddPeer (j : N) (pka : bool)
@@ -232,6 +234,7 @@ Definition authentic (v : N) : bool := negb ((v =? 2) || (v =? 3)).
 (* handshake worker: the message buffer went to the queue (the receive loop took a replacement), the worker
    releases it at `skip:`; state effects of the two acceptable messages *)
 Definition hs_effect (up : bool) (h j : N) (pa : list peer * acc) : list peer * acc :=
+  if h =? 8 then pa else
   let '(ps, a) := pa in
   let a := put (vbuf 1) (get (vbuf 1) a) in
   match find_peer j ps with
